@@ -11,6 +11,7 @@ func EmptyPut(txn *lmdb.Txn, dbi lmdb.DBI, it Iterator) error {
 	if err := txn.Drop(dbi, false); err != nil { // empty without deleting the DBI
 		return fmt.Errorf("empty dbi: %w", err)
 	}
+	observeWrite(it) // a drop always marks the transaction dirty
 	if err := doPut(txn, dbi, it, true); err != nil {
 		return fmt.Errorf("put: %w", err)
 	}
